@@ -1,0 +1,59 @@
+//! Verification hooks (cargo feature `verif-hooks`, off by default).
+//!
+//! Nothing in here runs unless a harness installs a controller / selects a crash point; with the
+//! feature off the module is not compiled and no call site exists.
+
+use std::io;
+use std::sync::Mutex;
+use std::sync::atomic::{AtomicU32, Ordering};
+
+use tokio::sync::{mpsc, oneshot};
+
+static CRASH_AT: AtomicU32 = AtomicU32::new(0);
+
+/// Selects the persistence step (1-based, see `BucketConfirmationManager::persist_bucket_state`)
+/// at which the next persist fails as if the process had died there; 0 disables.
+pub fn set_crash_point(step: u32) {
+    CRASH_AT.store(step, Ordering::SeqCst);
+}
+
+pub fn crash_point(step: u32) -> io::Result<()> {
+    if CRASH_AT.load(Ordering::SeqCst) == step {
+        return Err(io::Error::other(format!(
+            "verif: injected crash at persistence step {step}"
+        )));
+    }
+    Ok(())
+}
+
+/// A task parked at a pause point; dropping or sending on `release` lets it continue.
+pub struct Parked {
+    pub label: &'static str,
+    pub id: u128,
+    pub release: oneshot::Sender<()>,
+}
+
+static PAUSE_CTRL: Mutex<Option<mpsc::UnboundedSender<Parked>>> = Mutex::new(None);
+
+/// Installs the pause controller: from now on every `pause_async` call reports itself on the
+/// returned channel and waits until released.
+pub fn install_pause_controller() -> mpsc::UnboundedReceiver<Parked> {
+    let (tx, rx) = mpsc::unbounded_channel();
+    *PAUSE_CTRL.lock().unwrap() = Some(tx);
+    rx
+}
+
+pub fn remove_pause_controller() {
+    *PAUSE_CTRL.lock().unwrap() = None;
+}
+
+/// No-op unless a controller is installed. Never called while a lock is held.
+pub async fn pause_async(label: &'static str, id: u128) {
+    let tx = PAUSE_CTRL.lock().unwrap().clone();
+    if let Some(tx) = tx {
+        let (release, released) = oneshot::channel();
+        if tx.send(Parked { label, id, release }).is_ok() {
+            let _ = released.await;
+        }
+    }
+}
